@@ -80,6 +80,8 @@ def ds9_classes(model):
 
 def eval_writer(model, ci, meta_opaque=True, region=None):
     ser, fi, meta_fn = writer_funcs(model)
+    from ..vg import reset_marks
+    reset_marks()
     ev = Evaluator(model, opaque_funcs={meta_fn.qualname} if meta_opaque else ())
     s = region if region is not None else ev.symbolic_instance(ci, 'region')
     mark_quantity(sym('region.angle'))
